@@ -498,13 +498,17 @@ def isV3 (v : Byte) : Bool := v.toNat = 2 || v.toNat = 3
 def isV6 (v : Byte) : Bool := v.toNat = 6
 
 /-- `public_key_parser::parse` / `secret_key_parser::parse` up to the public parameters, and
-`PubKeyInner::new`'s admission rules.  `secret = true` is the secret-key variant: the v6
+`PubKeyInner::new`'s admission rules.  `secret = true` is the secret-key variant.  Before repair
+D15d (`pubLenExact = false`, kept for the regression witness) the two parsers differed: the v6
 `pub_len = 0` check exists only in the public parser, and only the secret parser insists that
 the public parameters use the whole `pub_len` window (`read_take`); in a public key packet what
 the parameters leave unread stays in the stream and is caught by the packet-level "not fully
 consumed" check.  The window is `min(pub_len, available)` octets: `read_take` does not fail on a
 short stream. -/
-def pubKeyParse (trust secret : Bool) (b : Bytes) : Option (PubKey × Bytes) :=
+def pubLenExact : Bool :=
+  Gen.fixD15dV6PubLenExactBothParsers = 1 && Gen.fixD15dV6PubLenExactSecretParser = 1
+
+def pubKeyParseWith (exact trust secret : Bool) (b : Bytes) : Option (PubKey × Bytes) :=
   match u8 b with
   | none => none
   | some (v, r) =>
@@ -545,7 +549,16 @@ def pubKeyParse (trust secret : Bool) (b : Bytes) : Option (PubKey × Bytes) :=
           | none => none
           | some (l, r3) =>
             let n := beNat l
-            if !secret && n = 0 then none
+            if exact then
+              -- repaired (D15d): both parsers refuse a zero count and want the parameters to fill
+              -- exactly the announced window (`Take::limit() == 0`: `n` octets were there and were read)
+              if n = 0 then none
+              else
+                match pubParamsParse trust alg (some n) (r3.take n) with
+                | none => none
+                | some (pp, wrest) =>
+                  if wrest.isEmpty && decide (n ≤ r3.length) then some (⟨v, created, [], alg, pp⟩, r3.drop n) else none
+            else if !secret && n = 0 then none
             else
               match pubParamsParse trust alg (some n) (r3.take n) with
               | none => none
@@ -554,6 +567,10 @@ def pubKeyParse (trust secret : Bool) (b : Bytes) : Option (PubKey × Bytes) :=
                   if wrest.isEmpty then some (⟨v, created, [], alg, pp⟩, r3.drop n) else none
                 else some (⟨v, created, [], alg, pp⟩, wrest ++ r3.drop n)
     else none
+
+/-- the parsers as the tree has them (the translator reports whether both are exact) -/
+def pubKeyParse (trust secret : Bool) (b : Bytes) : Option (PubKey × Bytes) :=
+  pubKeyParseWith pubLenExact trust secret b
 
 /-- `PubKeyInner::to_writer` -/
 def pubKeySer (k : PubKey) : Bytes :=
@@ -573,7 +590,7 @@ def PubKeyWF (secret : Bool) (k : PubKey) : Prop :=
   ((isV3 k.version = true ∧ k.expDays.length = 2 ∧ (k.alg.toNat = 1 ∨ k.alg.toNat = 2 ∨ k.alg.toNat = 3)) ∨
    (k.version.toNat = 4 ∧ k.expDays = []) ∨
    (k.version.toNat = 6 ∧ k.expDays = [] ∧ pubParamsWriteLen k.params < 4294967296 ∧
-      (secret = false → pubParamsWriteLen k.params ≠ 0)))
+      ((secret = false ∨ pubLenExact = true) → pubParamsWriteLen k.params ≠ 0)))
 
 /-! ## signature subpackets (`packet/signature/{subpacket,de,ser}.rs`) -/
 
